@@ -208,22 +208,24 @@ f = fn() {
 }
 x = f()
 """),
-    # ---- optionals across positions
-    ("optional-into-element-by-reassignment", "accept", """
+    # ---- optionals across positions: a `T?` may be nil, so it is not a value for a slot typed `T` (element, field, map
+    #      value, result): the program is ill-typed and must be refused, like `x: int = o` (fixed in /repo 85544e6)
+    ("optional-into-element-by-reassignment", "reject", """
 l: [int...] = [1, 2]
 o: int? = nil
 l[0] = o
 OBS l[0]
 OBS l[1]
 """),
-    ("builtin-optional-into-element", "accept", """
+    ("builtin-optional-into-element", "reject", """
 l: [int...] = [1, 2]
 l[0] = "5".parse_int()
 OBS l[0]
 x = l[0] + 1
 OBS x
 """),
-    ("optional-returned-as-base-type", "accept", """
+    # (a `T?` is not a return value of `-> T`: rejected since the return check stopped unwrapping the supplied type)
+    ("optional-returned-as-base-type", "reject", """
 f = fn(s: str) -> int {
 	return s.parse_int()
 }
@@ -872,6 +874,163 @@ if true {}
 [b0, b1] = l
 OBS b0
 OBS b1 && b0
+"""),
+    # ---- only a LIST is unpacked (`v[0]`, `v[1]`, ... are its elements): a map whose key type merely ACCEPTS an int
+    #      (`int?`, an alias of int) is not a list -- accepted, it reaches `vec_op` with a map (hunt3 B/1)
+    ("unpack-map-keyed-by-alias-of-int", "reject", """
+type K int
+m = map[K, str] { 0: "a", 1: "b" }
+if true {}
+[a, b] = m
+OBS a
+OBS b
+"""),
+    ("unpack-map-keyed-by-optional-int", "reject", """
+m = map[int?, str] { }
+if true {}
+[a, b] = m
+OBS a
+"""),
+    ("unpack-map-keyed-by-optional-int-single-name", "reject", """
+m = map[int?, str] { }
+if true {}
+[a] = m
+OBS a
+"""),
+    ("unpack-map-keyed-by-int", "reject", """
+m = map[int, str] { 0: "a", 1: "b" }
+if true {}
+[a, b] = m
+OBS a
+"""),
+    ("unpack-map-keyed-by-alias-of-int-in-function", "reject", """
+type K int
+f = fn(m: map[K, str]) -> str {
+	[a, b] = m
+	return a + b
+}
+OBS f(map[K, str] { 0: "a", 1: "b" })
+"""),
+    # ---- a value that may be nil does not reach a position typed as plain (hunt3 B/2 .. B/6): accepted, the plain
+    #      variable holds nil and the first operator applied to it fails
+    ("optional-returned-from-a-plain-result-type", "reject", """
+f = fn(o: int?) -> int {
+	return o
+}
+x = f(nil)
+OBS x + 1
+"""),
+    ("optional-entry-in-a-map-literal-with-plain-values", "reject", """
+oi: int? = nil
+m = map[str, int] { "a": oi }
+v = m["a"]
+OBS v + 1
+"""),
+    ("or-fallback-optional-through-captured-variables", "reject", """
+x: int? = nil
+y: int? = nil
+f = fn() -> int {
+	r = (x) or y
+	return r
+}
+OBS f() + 1
+"""),
+    ("map-result-of-optionals-into-a-plain-list", "reject", """
+l: [int...] = [1, 2, 3]
+q = fn(x: int) -> int? {
+	if x == 2 {
+		return nil
+	}
+	return x
+}
+s: [int...] = l.map(q)
+OBS s[1] + 1
+"""),
+    ("map-result-of-optionals-unwrapped-is-plain", "accept", """
+l: [int...] = [1, 2, 3]
+q = fn(x: int) -> int? {
+	if x == 2 {
+		return nil
+	}
+	return x
+}
+r = l.map(q)
+d = get r[0]
+OBS d + 1
+OBS (r[1]) or 7
+OBS r
+"""),
+    ("open-list-of-optionals-into-a-fixed-shape-of-plain", "reject", """
+b: [int?...] = [1, nil]
+const a: [int, int] = b
+z: int = a[1]
+OBS z + 1
+"""),
+    # ---- KNOWN FINDING `catalogue:field-never-assigned-by-constructor`: a field of a plain (non-optional) type that
+    #      the constructor does not assign on every path reads as nil; its static type promises a value.  All entries of
+    #      this group report that one class (UNASSIGNED_FIELD); a tree that rejects such classes reports nothing here.
+    ("field-unassigned-empty-constructor", "accept", """
+class E {
+	x: int
+	constructor(self) {
+	}
+}
+e = E()
+OBS e.x + 1
+"""),
+    ("field-unassigned-no-constructor", "accept", """
+class E {
+	x: int
+}
+e = E()
+OBS e.x + 1
+"""),
+    ("field-unassigned-on-one-branch", "accept", """
+class E {
+	x: int
+	constructor(self, c: bool) {
+		if c {
+			self.x = 1
+		}
+	}
+}
+e = E(false)
+OBS e.x + 1
+"""),
+    ("field-unassigned-assigned-only-in-a-method", "accept", """
+class E {
+	x: int
+	constructor(self) {
+	}
+	fn init(self) {
+		self.x = 1
+	}
+}
+e = E()
+OBS e.x + 1
+"""),
+    ("field-unassigned-str-field-method-call", "accept", """
+class E {
+	s: str
+	constructor(self) {
+	}
+}
+e = E()
+OBS e.s.len()
+"""),
+    ("field-assigned-on-every-branch", "accept", """
+class E {
+	x: int
+	constructor(self, c: bool) {
+		if c {
+			self.x = 1
+		} else {
+			self.x = 2
+		}
+	}
+}
+e = E(false)
+OBS e.x + 1
 """),
     ("unpack-single-name-existing-variable", "reject", """
 l: [int...] = [5, 6]
@@ -1723,6 +1882,7 @@ NESTED_CLASS_FINDING = "catalogue:class-declared-below-module-level"
 UNDETERMINED_NAME_FINDING = "catalogue:undetermined-literal-type-under-a-name"
 NEIGHBOUR_COERCION_FINDING = "catalogue:fixed-list-coerced-to-open-by-neighbour-comparison"
 MODULE_CLASS_FINDING = "catalogue:module-class-read-without-call-typed-as-instance"
+UNASSIGNED_FIELD_FINDING = "catalogue:field-never-assigned-by-constructor"
 
 
 def finding_class(name):
@@ -1735,6 +1895,10 @@ def finding_class(name):
         return NEIGHBOUR_COERCION_FINDING
     if name.startswith("module-class-"):
         return MODULE_CLASS_FINDING
+    if name.startswith("field-unassigned-"):
+        return UNASSIGNED_FIELD_FINDING
+    if name.startswith("unpack-map-keyed-by-"):
+        return "catalogue:unpack-of-a-map"
     return "catalogue:" + name
 
 
